@@ -18,9 +18,9 @@ from fractions import Fraction
 import numpy as np
 import torch
 
-DT = {"float32": torch.float32, "float64": torch.float64}
-EPS = {"float64": 2.0 ** -52, "float32": 2.0 ** -23}
-TINY = {"float64": 2.0 ** -1022, "float32": 2.0 ** -126}
+DT = {"float32": torch.float32, "float64": torch.float64, "int64": torch.int64, "int32": torch.int32}
+EPS = {"float64": 2.0 ** -52, "float32": 2.0 ** -23, "int64": 2.0 ** -23, "int32": 2.0 ** -23}   # int / float32 voxel tensor -> float32
+TINY = {"float64": 2.0 ** -1022, "float32": 2.0 ** -126, "int64": 2.0 ** -126, "int32": 2.0 ** -126}
 
 KINDS = ["lattice", "blobs", "uniform", "gauss", "line", "dupes"]
 
